@@ -14,6 +14,9 @@ pub enum T {
     Cons(Box<T>, Box<T>),
     /// Reified free variable of an answer, numbered by first occurrence (never in programs).
     Any(u32),
+    /// Compound term with two fields: kind 0 = `Pair(a, b)`, kind 1 = `Duo(a, b)` (two `#[compound]`
+    /// structs of the harness). Terms of different kinds never unify.
+    Cmp(u8, Box<T>, Box<T>),
 }
 
 impl T {
@@ -37,10 +40,22 @@ impl T {
         T::Cons(Box::new(h), Box::new(t))
     }
 
+    pub fn cmp(kind: u8, a: T, b: T) -> T {
+        T::Cmp(kind, Box::new(a), Box::new(b))
+    }
+
+    pub fn has_compound(&self) -> bool {
+        match self {
+            T::Cmp(..) => true,
+            T::Cons(h, t) => h.has_compound() || t.has_compound(),
+            _ => false,
+        }
+    }
+
     pub fn is_ground(&self) -> bool {
         match self {
             T::V(_) | T::Any(_) => false,
-            T::Cons(h, t) => h.is_ground() && t.is_ground(),
+            T::Cons(h, t) | T::Cmp(_, h, t) => h.is_ground() && t.is_ground(),
             _ => true,
         }
     }
@@ -52,7 +67,7 @@ impl T {
                     out.push(*v)
                 }
             }
-            T::Cons(h, t) => {
+            T::Cons(h, t) | T::Cmp(_, h, t) => {
                 h.vars(out);
                 t.vars(out);
             }
@@ -67,7 +82,7 @@ impl T {
                     out.push(*v)
                 }
             }
-            T::Cons(h, t) => {
+            T::Cons(h, t) | T::Cmp(_, h, t) => {
                 h.anys(out);
                 t.anys(out);
             }
@@ -77,7 +92,7 @@ impl T {
 
     pub fn size(&self) -> usize {
         match self {
-            T::Cons(h, t) => 1 + h.size() + t.size(),
+            T::Cons(h, t) | T::Cmp(_, h, t) => 1 + h.size() + t.size(),
             _ => 1,
         }
     }
@@ -90,6 +105,7 @@ impl T {
             T::S(s) => format!("{:?}", s),
             T::B(b) => format!("{}", b),
             T::Nil => "[]".to_string(),
+            T::Cmp(k, a, b) => format!("{}({}, {})", if *k == 0 { "Pair" } else { "Duo" }, a.show(), b.show()),
             T::Cons(_, _) => {
                 let mut s = String::from("[");
                 let mut cur = self;
